@@ -32,6 +32,7 @@ logging.getLogger("onnx_ir").setLevel(logging.CRITICAL)
 warnings.filterwarnings("ignore")
 
 PROPERTY = "C17"
+HERMETIC = True  # one forked child per run: deserialization state kept at module level must not travel between runs
 LEVEL = "exploration"
 TIERS = {
     "quick": {"wall": 40, "chunk": 10, "shrink_budget": 200, "shrink_wall": 60, "per_run_cap": 300.0},
@@ -379,6 +380,31 @@ def damage_fields(p: onnx.ModelProto, opsl: list) -> None:
                 t.string_data.append(b"ok")
 
 
+# ---- birth epochs: every Value / Node created by ir-py is stamped with the number of the deserialization call
+# that was running, so that an IR reaching objects of an EARLIER call (state leaking between calls) is recognised
+_EPOCH = {"n": 0}
+_BORN: "weakref.WeakKeyDictionary" = None  # type: ignore[assignment]
+
+
+def _install_birth_stamps() -> None:
+    global _BORN
+    if _BORN is not None:
+        return
+    import weakref
+
+    import onnx_ir._core as _c
+
+    _BORN = weakref.WeakKeyDictionary()
+    for cls in (_c.Value, _c.Node):
+        orig = cls.__init__
+
+        def stamped(self, *a, __orig=orig, **k):
+            _BORN[self] = _EPOCH["n"]
+            return __orig(self, *a, **k)
+
+        cls.__init__ = stamped
+
+
 def _inspect_tensors(model) -> int:
     n = 0
     graphs = list(model.graphs())
@@ -427,6 +453,9 @@ def check_one(proto_bytes: bytes, scratch: str, seam: fsseam.FsSeam, use_load: b
     raised = None
     signal.setitimer(signal.ITIMER_REAL, 20.0)
     _audit["on"] = True
+    _install_birth_stamps()
+    _EPOCH["n"] += 1
+    epoch = _EPOCH["n"]
     try:
         try:
             if use_load:
@@ -488,6 +517,18 @@ def check_one(proto_bytes: bytes, scratch: str, seam: fsseam.FsSeam, use_load: b
                 if p_ is not None and p_.graph is not None and (v.is_graph_input() or v.is_graph_output() or v.is_initializer()) and v.graph is not p_.graph:
                     inv = {"clause": "owner-conflict", "detail": f"value {v.name!r} is an input/output/initializer of graph {getattr(v.graph, 'name', None)!r} but is produced by node {p_.name!r} of graph {getattr(p_.graph, 'name', None)!r}"}
                     break
+        if inv is None:
+            # deserialization is a function of the proto alone: nothing reachable from the result predates this call
+            _EPOCH["n"] += 1
+            for kind_, objs in (("value", w.values), ("node", w.nodes)):
+                for o in objs:
+                    b = _BORN.get(o)
+                    if b is not None and b != epoch:
+                        inv = {"clause": "reaches-objects-of-an-earlier-call", "detail": f"{kind_} {getattr(o, 'name', None)!r} reachable from the returned IR was created by an earlier deserialization call (epoch {b}, this call {epoch})"}
+                        break
+                if inv is not None:
+                    break
+            inc("birth_epochs_checked")
         if inv is not None:
             return {"clause": "inconsistent-ir-returned", "detail": f"from_proto returned an IR that violates {inv['clause']}: {inv['detail']}", "key": f"inconsistent-ir-returned|{inv['clause']}"}
         # ---- (c) serialization raises or reaches a fix point
@@ -597,7 +638,8 @@ def run_case(case: dict) -> dict:
                     if res["violation"] is None:
                         res["violation"] = v
                         c = copy.deepcopy(case)
-                        c["variants"] = [var]
+                        # a violation that depends on what was deserialized before keeps its history
+                        c["variants"] = case["variants"][: vi + 1] if "earlier-call" in v.get("key", "") else [var]
                         res["case"] = c
                     if len(res["violations"]) >= 6:
                         break
@@ -610,6 +652,16 @@ def run_case(case: dict) -> dict:
 
 
 def shrink_candidates(case: dict, violation: dict):
+    if len(case["variants"]) > 1 and "earlier-call" in (violation or {}).get("key", ""):
+        # history-dependent: drop earlier variants one at a time, keep the failing (last) one
+        n = len(case["variants"])
+        for width in (8, 4, 2, 1):
+            for lo in range(0, n - 1, width):
+                c = copy.deepcopy(case)
+                c["variants"] = case["variants"][:lo] + case["variants"][min(lo + width, n - 1) :]
+                if len(c["variants"]) < n:
+                    yield c
+        return
     if len(case["variants"]) > 1:
         for v in case["variants"]:
             c = copy.deepcopy(case)
